@@ -215,8 +215,78 @@ def h_ctx_init(ctx):
     ctx.cover('ctx_init')
 
 
+def h_engine_variables(ctx):
+    """MerchantEngine._evaluate_variables: the variables of a rules file are evaluated one after the other, each with the variables defined before it in
+    scope (name resolution: scope, USER VARIABLES, primitives - also inside a variable's own expression), each stored under its own name with its own
+    value; a variable that cannot be evaluated is left undefined and changes nothing."""
+    sp = base_spec()
+    I = Interp(ctx, sp)
+    q = 'tally.merchant_engine.MerchantEngine._evaluate_variables'
+    fi = find_function(q)
+    txn, ds = Obj(ctx.fresh('transaction', ObjS), 'pydict'), Obj(ctx.fresh('data_sources', ObjS), 'pydict')
+    gv = SymMap(StrS, {None: ctx.fresh('variables.expr', z3.ArraySort(StrS, StrS))}, dom=ctx.fresh('variables.names', SetS))
+    eng = Rec('MerchantEngine', {'variables': gv})
+    flags = {}
+
+    def current(I_):
+        return I_.frames[-1].env.get('evaluated')
+
+    def m_eval(I_, a, k, n):
+        ev = current(I_)
+        ctx.check('C04.engine_variables.each_variable_is_evaluated_with_the_variables_before_it_in_scope', ev is not None and k.get('variables') is ev, 'property')
+        ctx.check('C04.engine_variables.evaluated_on_this_transaction_with_the_supplemental_sources', len(a) >= 2 and a[1] is txn and k.get('data_sources') is ds, 'property')
+        flags['expr'] = to_z3(a[0], StrS)
+        if isinstance(ev, SymMap):
+            flags['before'] = (ev.dom, ev.fields[None])
+        if I_.ctx.choose(2, 'variable.cannot_be_evaluated'):
+            raise PyRaise('ExpressionError', (), 'evaluate_transaction')
+        flags['value'] = I_.fresh('value', ObjS)
+        return Obj(flags['value'], 'pyvalue')
+    sp.models['expr_parser.evaluate_transaction'] = Func(m_eval)
+
+    def unfold(I_, env, k, it):
+        flags.clear()
+        flags['in_step'] = not (z3.is_app(k) and k.decl().kind() == z3.Z3_OP_CONST_ARRAY) and not z3.eq(k, gv.dom)
+        return []
+
+    def inv(I_, env, k, it):
+        out = {}
+        ev = env['evaluated']
+        if flags.get('in_step') and 'before' in flags and isinstance(ev, SymMap):
+            dom0, arr0 = flags['before']
+            if 'value' in flags:
+                out['variable_defined_under_its_own_name_with_its_value'] = _defined(ev, dom0, arr0, flags, gv)
+            else:
+                out['a_variable_that_cannot_be_evaluated_changes_nothing'] = z3.And(ev.dom == dom0, ev.fields[None] == arr0)
+        return out
+    fr = Frame(fi, {})
+    for nd in ast.walk(fi.node):
+        if isinstance(nd, ast.For):
+            sp.loops[(q, fr.loop_ordinals[id(nd)])] = LoopSpec(inv, {'evaluated': lambda c: SymMap(StrS, {None: c.fresh('evaluated.values', z3.ArraySort(StrS, ObjS))}, dom=c.fresh('evaluated.names', SetS))},
+                                                               kind='property', unfold=unfold)
+            flags['name_node'] = nd.target
+    orig_assign = I.assign
+
+    def assign(t, v, frm):
+        # the loop binds (name, expr): remember the name of the variable being processed
+        if isinstance(t, ast.Tuple) and isinstance(v, tuple) and len(v) == 2 and z3.is_expr(v[0]) and v[0].sort() == StrS:
+            flags['name'] = v[0]
+        return orig_assign(t, v, frm)
+    I.assign = assign
+    I.call_function(fi, [txn, ds], {}, self_obj=eng)
+    ctx.cover('_evaluate_variables.returns')
+
+
+def _defined(ev, dom0, arr0, flags, gv):
+    nm = flags.get('name')
+    if nm is None:
+        return z3.BoolVal(False)
+    return z3.And(ev.dom == z3.SetAdd(dom0, nm), ev.fields[None] == z3.Store(arr0, nm, flags['value']), z3.Select(gv.fields[None], nm) == flags['expr'])
+
+
 def harnesses(tier):
-    return [Harness('TransactionEvaluator._eval_Name', h_name, [TE + '_eval_Name']),
+    return [Harness('MerchantEngine._evaluate_variables', h_engine_variables, ['tally.merchant_engine.MerchantEngine._evaluate_variables'], prune=True),
+            Harness('TransactionEvaluator._eval_Name', h_name, [TE + '_eval_Name']),
             Harness('TransactionEvaluator._eval_NamedExpr', h_walrus, [TE + '_eval_NamedExpr']),
             Harness('TransactionEvaluator._eval_comprehension_loop', h_comprehension, [TE + '_eval_comprehension_loop']),
             Harness('TransactionContext.__init__', h_ctx_init, [EP + 'TransactionContext.__init__'])]
